@@ -88,6 +88,13 @@ def load(path: Union[str, DDSPath, pathlib.Path]) -> Any:
     if key is None:
         raise DDSException(f"The store {_store()} did not return path {path_}")
     else:
+        if not _store().has_blob(key):
+            # fetch_blob answers None for a blob that is not there: a None that nobody stored
+            raise DDSException(
+                f"The path {path_} leads to the key {key}, which the store {_store()} does not hold. "
+                f"The usual cause is a data directory that was filled through another internal directory.",
+                DDSErrorCode.STORE_PATH_NOT_FOUND,
+            )
         return _store().fetch_blob(key)
 
 
